@@ -20,7 +20,8 @@ EXPLANATION += " Further clauses: (R5) NAME-AGREE - a field filled from a like-n
 TECHNIQUE = "static analysis: field read/write census on MIR + insertion-site census classified by resolved callee with a frozen triage table"
 
 SPEC_OWNER = re.compile(r'^(oal_compiler::)?spec::(\w+)$')
-MAPTY = re.compile(r'(indexmap::IndexMap<|enum_map::EnumMap<)')
+# ... and a std map that holds spec values (`HashMap<String, spec::Property>`: a keyed collection of declarations)
+MAPTY = re.compile(r'(indexmap::IndexMap<|enum_map::EnumMap<|(?:HashMap|BTreeMap)<[^<>]*(?:<[^<>]*>[^<>]*)*\bspec::)')
 MERGING = {'entry', 'get_or_insert', 'get_or_insert_with', 'get_or_insert_default', 'or_insert', 'or_insert_with', 'or_default'}
 OVERWRITING = {'insert', 'insert_full', 'extend', 'collect', 'from_iter', 'from', 'index_mut', 'append', 'extend_one', 'shift_insert', 'insert_before', 'replace'}
 
